@@ -163,6 +163,7 @@ namespace
         return new RxLegacy(cap);
     }
 
+    std::string hex(const Bytes &b, size_t max = 40);
     // ---------------------------------------------------------------- real encoders, exact-size outputs
     enum { ENC_PTR = 0, ENC_IOVEC = 1, ENC_VEC_BUF = 2, ENC_VEC_IOVEC = 3, ENC_N = 4 };
     Bytes real_encode(int variant, int enc, const Bytes &p, const std::vector<int64_t> &cuts)
@@ -193,6 +194,22 @@ namespace
             v.iov_len = cp[i + 1] - cp[i];
             iov.push_back(v);
             if (v.iov_len == 0) probe("empty_iovec_piece");
+        }
+        if (enc == ENC_IOVEC || enc == ENC_VEC_IOVEC)
+        {
+            // the same scatter list is framed more than once (a retransmission; a second link with the other alphabet): every
+            // call must frame the payload the list describes
+            gstuff_context other = variant == VAR_CFG_V0 ? gstuff_context() : gstuff_context_v0();
+            const Alphabet &oa = variant == VAR_CFG_V0 ? ALPHA_V1 : ALPHA_V0;
+            std::unique_ptr<char[]> out(new char[maxout]);
+            int len = gstuffing_v(iov.data(), iov.size(), out.get(), other);
+            if (len < 0 || (size_t)len > maxout) violate("C04/frame-too-long", "encoder returned %d for n=%zu", len, n);
+            Bytes first((uint8_t *)out.get(), (uint8_t *)out.get() + len);
+            Bytes again = gstuffing_v(iov.data(), iov.size(), other);
+            Bytes want = ref_encode(oa, p);
+            if (first != want || again != want)
+                violate("C04/frame-bytes", "framing the same iovec array twice for the other link gives %s and then %s, the reference encoding is %s", hex(first).c_str(), hex(again).c_str(), hex(want).c_str());
+            probe("same_iovec_framed_again");
         }
         switch (enc)
         {
@@ -267,7 +284,7 @@ namespace
         }
     };
 
-    std::string hex(const Bytes &b, size_t max = 40)
+    std::string hex(const Bytes &b, size_t max)
     {
         std::string s;
         char t[4];
@@ -515,8 +532,9 @@ namespace
             if (cap < 2) cap = 2;
             // cfg[3], cfg[4] (fault-free world): the receiver object had an earlier session that ended in the middle of a frame
             // (cfg[4] selects where) and was then re-initialised by its owner in way cfg[3] (0: no earlier session); cfg[3] = 4: the
-            // earlier traffic was one complete frame too long for the buffer, and the receiver was not re-initialised
-            p.cfg = {variant, enc, cap, !faults && r.chance(1, 4) ? (int64_t)r.range(1, 4) : 0, (int64_t)r.below(64)};
+            // earlier traffic was one complete frame too long for the buffer, and the receiver was not re-initialised; cfg[3] = 5: the
+            // earlier traffic was one complete frame damaged inside an escape pair, no re-initialisation either
+            p.cfg = {variant, enc, cap, !faults && r.chance(1, 4) ? (int64_t)r.range(1, 5) : 0, (int64_t)r.below(64)};
             bool sweep = faults && r.chance(1, 3);
             if (faults && r.chance(1, 3))
             {
@@ -670,7 +688,7 @@ namespace
             if (!faults) cap = std::max(cap, (int)maxpayload + 2); // C04: a large enough buffer
 
             LinkStats ls;
-            int earlier = faults ? 0 : (int)mod(p.c(3, 0), 5);
+            int earlier = faults ? 0 : (int)mod(p.c(3, 0), 6);
             auto build_and_run = [&](long sweep_off) {
                 std::vector<Elem> stream;
                 std::vector<FrameMeta> fr = frames;
@@ -683,6 +701,19 @@ namespace
                     for (uint8_t b : ref_encode(a, pl)) stream.push_back(Elem{b, 0, -1, 0});
                     last_fault = (long)stream.size() - 1;
                     probe("receiver_reused_after_overflow");
+                }
+                else if (earlier == 5)
+                {
+                    // a complete frame with stored bytes and then an escape pair whose second byte is no escape code
+                    size_t keep = 1 + (size_t)mod(p.c(4, 0), 3);
+                    stream.push_back(Elem{a.START, 0, -1, 0});
+                    for (size_t i = 0; i < keep && i + 3 < (size_t)cap; i++) stream.push_back(Elem{(uint8_t)('p' + i), 0, -1, 0});
+                    stream.push_back(Elem{a.STUB, 0, -1, 0});
+                    stream.push_back(Elem{0x00, 0, -1, 0});
+                    stream.push_back(Elem{(uint8_t)'z', 0, -1, 0});
+                    stream.push_back(Elem{a.STOP, 0, -1, 0});
+                    last_fault = (long)stream.size() - 1;
+                    probe("receiver_reused_after_damaged_escape");
                 }
                 else if (earlier)
                 {
@@ -729,7 +760,7 @@ namespace
                             fr[pc.frame].last = stream.size() + es.size() - 1;
                         }
                     }
-                    if (earlier && earlier != 4 && !es.empty() && stream.size() > 0 && &pc == &pieces[0]) es[0].restart = earlier;
+                    if (earlier && earlier < 4 && !es.empty() && stream.size() > 0 && &pc == &pieces[0]) es[0].restart = earlier;
                     stream.insert(stream.end(), es.begin(), es.end());
                 }
                 run_stream(variant, cap, stream, fr, last_fault, !faults, tr, ls);
